@@ -107,6 +107,12 @@ CHECKS["C03"] = dict(
    note="The effective security of a route is computed from the project descriptor (method overrides controller overrides default). body_read is not observable under fiber's app.Test; which refusal status wins among several refusing alternatives is judged by membership only.",
    ref="DESIGN.md §5 C03, Appendix B")
 
+CHECKS["C12"] = dict(
+   technique="differential trace-checking monitor: the five generated routers of one project are driven in one process with identical requests; per request id the tuple (calls, controller.method, recorded arguments, status, body parsed as JSON) from the JSONL event log must be equal on all engines; thorough tier adds a 4-goroutine pass under the race detector",
+   text="Runtime monitoring of real generated routers (gin/echo/mux/chi through ServeHTTP+httptest, fiber through app.Test): 8 (thorough 80) projects, half with validateResponsePayload, ~850 compared requests per quick run over ~800 distinct (request class, parameter shape, status) cells: valid/boundary/zero values, omitted / unconvertible / validator-violating parameters, malformed bodies, operation behaviours err/status/header/errstatus with plain and custom error types, authorization refusals (401/418/custom payload) and hostile variants without a reference answer (repeated/empty/unknown query keys, empty header values, wrong/missing/parameterised content types, empty/null/array/scalar/trailing-garbage bodies, repeated form keys). Exploration only; no reference model, only disagreement is judged.",
+   note="All engines receive the same *http.Request in-process; response headers are observed, not judged (the statement names status and body). Path values use canonical encoding and no '+' as in C05.",
+   ref="DESIGN.md §5 C12, Appendix B")
+
 NOT_YET = {
 }
 ALL = ["C%02d" % i for i in range(1, 21)]
